@@ -13,7 +13,7 @@ ours=json.load(open('/tmp/kf_ours.json')); theirs=json.load(open('/tmp/kf_theirs
 keys=set(json.dumps(e,sort_keys=True) for e in ours)
 ids=set(e.get('id') for e in ours if 'fixed' not in e)
 for e in theirs:
-    if 'fixed' in e: continue
+    if 'fixed' in e and e in ours: continue
     if json.dumps(e,sort_keys=True) in keys or e.get('id') in ids: continue
     ours.append(e)
 json.dump(ours,open('/verif/known_findings.json','w'),indent=1)
